@@ -3,7 +3,10 @@ import ZV.Model.C07
     `c07 <pki seed> <certs> <sigOK rows> <leaf> <roots> <inters> <now> <keyUsages> <dnsName> <leafHasSAN> <leafDNSNames> <leafCN>`
     certs: `;`-separated, each `id:subject:issuer:spki:skid:akid:v3:bc:ca:maxPathLen:kuPresent:kuCertSign:selfSigned:eku:unknownEku:notBefore:notAfter`
            (eku `.`-joined or `_`); uid = position.  Index lists `.`-joined or `_`.  Strings hex (`-` empty), lists `,`-joined or `_`.
-    output: `<error kind>|c=<chains>|e=<chains>|n=<chains>`; a chain = uids joined by `.`, chains sorted and joined by `,`. -/
+    output: `<error kind>|c=<chains>|e=<chains>|n=<chains>`; a chain = uids joined by `.`, chains sorted and joined by `,`.
+    `c07 eku <chain> <keyUsages>`: `checkChainForKeyUsage` alone; chain = `;`-separated `eku:unknownEku` (or `_` = empty chain),
+    usages in the harness numbering with `-1` = the sentinel value; output `true` / `false`.
+    `c07 isvalid <type 0 leaf|1 intermediate|2 root> <bc> <ca> <maxPathLen> <len(currentChain)>`: `isValid` alone; output = error kind. -/
 namespace ZV.C07
 
 def parseNats (s : String) : Option (List Nat) :=
@@ -62,8 +65,35 @@ def showErr : Option Err → String
   | some .hostname => "hostname"
   | some .outOfFuel => "outOfFuel"
 
+/-- a certificate of which only the EKU fields matter -/
+def ekuCert (eku : List Int) (unk : Bool) : Cert :=
+  { uid := 0, id := 0, subject := 0, issuer := 0, spki := 0, skid := 0, akid := 0, version3 := true,
+    bcValid := false, isCA := false, maxPathLen := -1, kuPresent := false, kuCertSign := false, selfSigned := false,
+    eku := eku, unknownEku := unk, notBefore := 0, notAfter := 0 }
+
+def parseEkuChain (s : String) : Option Chain :=
+  if s == "_" then some []
+  else (s.splitOn ";").mapM (fun x =>
+    match x.splitOn ":" with
+    | [eku, unk] =>
+      match parseInts eku, unk.toNat? with
+      | some e, some u => some (ekuCert e (u != 0))
+      | _, _ => none
+    | _ => none)
+
 def handle (args : List String) : String :=
   match args with
+  | ["isvalid", ty, bc, ca, mpl, n] =>
+    match ty.toNat?, parseInt mpl, n.toNat? with
+    | some t, some mpl, some n =>
+      let c : Cert := { ekuCert [] false with bcValid := bc == "1", isCA := ca == "1", maxPathLen := mpl }
+      let ct : CertType := if t = 0 then .leaf else if t = 1 then .intermediate else .root
+      showErr (isValid c ct (List.replicate n (ekuCert [] false)))
+    | _, _, _ => "bad-op"
+  | ["eku", chain, kus] =>
+    match parseEkuChain chain, parseInts kus with
+    | some ch, some us => if checkChainForKeyUsage ch us then "true" else "false"
+    | _, _ => "bad-op"
   | [_, certs, sig, leaf, roots, inters, now, kus, dns, san, ldns, lcn] =>
     match parseCerts certs, leaf.toNat?, parseNats roots, parseNats inters, parseInt now, parseInts kus,
           ofHex dns, parseHexList ldns, ofHex lcn with
